@@ -27,7 +27,8 @@ MODELS = {
                               ["W_ClaimWhileDraining", "W_CutAtDeadline", "W_ServedByRetired", "W_UpgradeClosed", "W_FailedDeploy"]],
                    variants=[dict(name="pinned-F1", cfg="MC_Deploy_quick.cfg", constants={"SignalAfterNotify": "FALSE"},
                                   invariants=["D_C02"])],
-                   no_exempt=[("D_C02", "MC_Deploy_quick.cfg"), ("D_C03_b", "MC_Deploy_quick.cfg")]),
+                   no_exempt=[("D_C02", "MC_Deploy_quick.cfg"), ("D_C03_b", "MC_Deploy_quick.cfg")],
+                   live=dict(quick=["MC_Live_deploy.cfg"], thorough=["MC_Live_deploy.cfg", "MC_Live_deploy_thorough.cfg"], control="MC_Live_control.cfg")),
     "health": dict(module="MC_Deploy.tla", quick=["MC_DeployBad_quick.cfg"], thorough=["MC_DeployBad_thorough.cfg"], sim_cfg="MC_DeployBad_quick.cfg",
                    witnesses=[], variants=[], no_exempt=[]),
     "pause": dict(module="MC_Pause.tla",
@@ -38,7 +39,8 @@ MODELS = {
                   witnesses=[("W_HeldThenServed", "MC_PauseA.cfg"), ("W_HeldThenStopped", "MC_PauseB.cfg"),
                              ("W_GateClaim", "MC_PauseA.cfg"), ("W_CutAtDeadline", "MC_PauseA.cfg")],
                   variants=[],
-                  no_exempt=[("D_C07_f", "MC_PauseA.cfg"), ("D_C07_b", "MC_PauseD.cfg"), ("D_C03_p", "MC_PauseC.cfg")]),
+                  no_exempt=[("D_C07_f", "MC_PauseA.cfg"), ("D_C07_b", "MC_PauseD.cfg"), ("D_C03_p", "MC_PauseC.cfg")],
+                  live=dict(quick=["MC_Live_pauseB.cfg", "MC_Live_pauseD.cfg"], thorough=["MC_Live_pauseB.cfg", "MC_Live_pauseD.cfg", "MC_Live_pauseB_thorough.cfg"])),
 }
 
 CONC = {
@@ -58,6 +60,7 @@ SIZES = {"quick": {"deploy": 160, "pause": 160, "rollout": 128, "own": 240, "hea
          "thorough": {"deploy": 4000, "pause": 4000, "rollout": 3000, "own": 4000, "health": 3000, "snap": 4000}}
 SIMS = {"quick": 30, "thorough": 500}
 MC_TIMEOUT = {"quick": 240, "thorough": 1500}
+DTRACE_LIMIT = {"quick": 96, "thorough": None}   # scenarios validated against the design model per run
 
 
 def design_runs(family, tier, seed):
@@ -87,6 +90,15 @@ def design_runs(family, tier, seed):
         wd2 = vlib.spec_copy(family + "ne" + inv)
         name = vlib.cfg_with(wd2, ncfg, "NE_%s.cfg" % inv, invariants=[inv], constants={"Exempt": "FALSE"})
         jobs.append(dict(kind="noexempt", goal=inv, cfg=ncfg, proc=vlib.start_tlc(wd2, mdl["module"], name, workers=2, timeout=200), wd=wd2))
+    # liveness under fairness (no symmetry, no state constraint), and its negative control
+    live = mdl.get("live", {})
+    for lcfg in live.get(tier, []):
+        wd2 = vlib.spec_copy(family + "live" + lcfg)
+        jobs.append(dict(kind="live", goal=lcfg, cfg=lcfg, proc=vlib.start_tlc(wd2, mdl["module"], lcfg, workers=4, timeout=MC_TIMEOUT[tier]), wd=wd2))
+    if live.get("control"):
+        wd2 = vlib.spec_copy(family + "livectl")
+        jobs.append(dict(kind="live-control", goal=live["control"], cfg=live["control"],
+                         proc=vlib.start_tlc(wd2, mdl["module"], live["control"], workers=2, timeout=200), wd=wd2))
     # random behaviours of the design model
     wd3 = vlib.spec_copy(family + "sim")
     simp = os.path.join(wd3, "sim")
@@ -120,6 +132,15 @@ def collect_design(jobs, family):
                 notes.append((j["kind"] + "-unreachable", j["goal"], verdict))
             else:
                 raise Inconclusive("TLC %s %s: %s\n%s" % (j["kind"], j["goal"], verdict, out[-1500:]))
+        elif j["kind"] == "live":
+            st, gen = vlib.tlc_stats(out)
+            if verdict != "ok":
+                raise Inconclusive("liveness of the design model (%s): %s\n%s" % (j["cfg"], verdict, out[-2500:]))
+            mc.append(dict(cfg=j["cfg"], verdict="ok (liveness under fairness)", states=st, transitions=gen))
+        elif j["kind"] == "live-control":
+            if not verdict.startswith("temporal"):
+                raise Inconclusive("liveness control %s: expected a counterexample without the drain deadline, got %s" % (j["cfg"], verdict))
+            notes.append(("live-control", j["cfg"], verdict))
         elif j["kind"] == "sim":
             files = sorted(glob.glob(j["prefix"] + "_*"))
             if not files:
@@ -181,6 +202,10 @@ def run_conc(prop, tier, seed, replay=None):
         guided_stats["hits"] += s.get("hits", 0)
         guided_stats["misses"] += s.get("misses", 0)
     res = vlib.validate_traces(traces)
+    # design-level conformance: the internal hook events of the same runs must be a behaviour of spec/Proxy.tla
+    import dtrace
+    dres = dtrace.validate([os.path.join(o, "trace.ndjson") for o in outs], limit=DTRACE_LIMIT[tier])
+    shutil.rmtree(dres.pop("wd"), ignore_errors=True)
     if replay:
         os.makedirs(os.path.join(vlib.VERIF, "out", prop), exist_ok=True)
         shutil.copy(os.path.join(outs[0], "trace.ndjson"), os.path.join(vlib.VERIF, "out", prop, "replay.trace.ndjson"))
@@ -249,6 +274,14 @@ def run_conc(prop, tier, seed, replay=None):
         "samples": samples,
         "known_findings_printed": list(listed.keys()),
         "other_invariants_violated_this_run": dict(others),
+        "design_conformance": {
+            "rule": "scenarios whose internal hook events (emits at linearization points, yields, one line per design action) were "
+                    "accepted by TLC as a behaviour of spec/Proxy.tla through spec/ProxyTrace.tla, with the D_* invariants evaluated "
+                    "in every state of the reconstructed run; skipped = outside the design model's scope",
+            "scenarios_validated": dres["validated"], "accepted": dres["accepted"], "skipped": dres["skipped"],
+            "lines": dres["events"], "actions_bound": dres["actions"],
+            "rejected": [{k: r.get(k) for k in ("scenario", "reached", "lines", "next")} for r in dres["rejected"][:5]],
+        },
         "families": spec["families"],
         "exhaustive": False,
     }
@@ -256,6 +289,15 @@ def run_conc(prop, tier, seed, replay=None):
     cov["_assumptions"] = ["TLC/SANY", "testing/synctest virtual clock", "net.Pipe in-memory network", "harness recorder and fake targets",
                            "bounded configurations of the design model (constants in spec/MC_*.cfg)"]
     EVIDENCE.append(cov)
+    if rc == 0 and dres["broken"]:
+        raise Inconclusive("design-level trace validation failed to run: %r" % dres["broken"][:2])
+    if rc == 0 and dres["rejected"]:
+        r = dres["rejected"][0]
+        path = vlib.save_replay(prop, 900, {"property": prop, "drift": {k: r.get(k) for k in ("scenario", "reached", "lines", "next", "tail")},
+                                            "design_trace_prefix": r.get("prefix")})
+        raise Inconclusive("model drift: in scenario %s the code took a step the design model spec/Proxy.tla does not allow "
+                           "(line %s of %s: %s); no property of the observable layer was violated. details=%s"
+                           % (r["scenario"], r["reached"], r["lines"], json.dumps(r["next"]), path))
     if rc == 0 and drift:
         raise Inconclusive("model drift: the design model violates %s but the replayed schedule did not violate the property on the code" % drift)
     unreachable = [n for n in notes if n[0].endswith("-unreachable")]
